@@ -79,6 +79,8 @@ pub struct VerifState {
     pub data_cursor: Option<VerifDataCursor>,
     pub functions: Vec<VerifFunction>,
     pub rng_state: u64,
+    /// Current depth of nested expression / statement evaluation (0 between host calls).
+    pub nesting_depth: usize,
     pub variables: Vec<(String, VerifValue)>,
     pub arrays: Vec<VerifArray>,
     pub enable_warnings: bool,
